@@ -30,14 +30,15 @@
                                                 C17_monotone: fills of the policy never increase with the
                                                 capacity, for schedules without staging pins (reads and
                                                 writes)                                          full
-                                                NOT PROVED: monotonicity with staging pins; its lift to the
-                                                oracle clause non_increasing; optimality
-     oracle on the model                        C17_model_meets_spec: outside region 1 every clause of
-                                                the oracle holds on the model, given the monotonicity of
-                                                the policy over the case's capacities (non_increasing) —
+                                                C17_monotone_cases: lifted to the oracle's spec_min
+                                                REFUTED with staging pins: C17_monotone_pins_refuted
+                                                (region 2);  NOT PROVED: optimality
+     oracle on the model                        C17_model_meets_spec: outside the known-finding regions
+                                                1 and 2 every clause of the oracle holds on the model,
+                                                unconditionally —
                                                 C17_model_meets_spec_cache: given the whole cache clause;
                                                 C17_model_meets_spec_no_cache: without cache runs
-   The monotonicity clause of the cache stays decided on every run by the oracle
+   Every clause is also decided on every run by the oracle
    [c17_holds] (evaluated on the implementation's output: verdict bit 1, and on the model's: bit 4). *)
 From Coq Require Import ZArith List Bool.
 From FT Require Import Model.Base Model.Obs Model.C17Traffic Model.C17Check
@@ -252,13 +253,22 @@ Proof.
 Qed.
 Print Assumptions C17_monotone.
 
-(* NOT PROVED (kept as the oracle clause [non_increasing], evaluated on every case):
-     monotonicity with staging pins (a pinned line is inserted without room and make_room may give
-     up several lines); the lift of C17_monotone to total_reads over the case's ascending
-     capacities; optimality of g_min_run among all replacement policies with bypass.
+(* REFUTED with staging pins: C17_monotone_pins_refuted below (region 2, known finding).
+   NOT PROVED: optimality of g_min_run among all replacement policies with bypass.
    Refuted outside region 0: when two lines of one binding are used next in the same iteration
    step (a read and a write to different lines) their ListElems compare equal, the line that is
    accessed is not at the head of next_evict and cacheTraffic stops with an AssertionError. *)
+(* with staging pins the clause "never increases with the capacity" is false for cacheTraffic's
+   model (and for the code: the witness is replayed by the check): a line is pinned or replaceable
+   depending on the access that brought it in; region 2 = cache runs at two or more capacities
+   of a case with a staging-area access *)
+Theorem C17_monotone_pins_refuted :
+  exists c, c17_wf c = true /\ c17_region c = 2
+            /\ map total_reads (vl (vnth 3 (c17_model c))) = [64 - 7; 128 - 7]
+            /\ c17_holds c (c17_model c) = false.
+Proof. exact cache_pins_not_monotone. Qed.
+Print Assumptions C17_monotone_pins_refuted.
+
 Theorem C17_cache_tie_refuted :
   exists c, c17_wf c = true /\ c17_region c = 1
             /\ vnth 3 (c17_model c) = VL [Verr 1]
@@ -266,14 +276,21 @@ Theorem C17_cache_tie_refuted :
 Proof. exact cache_tie_refuted. Qed.
 Print Assumptions C17_cache_tie_refuted.
 
-(* the faithful model meets the oracle outside region 1: filter, combine, buffet fills/write-backs,
-   cache fills = min_run, its bounds, no failure, no temporary file are proved; the one remaining
-   hypothesis is the monotonicity of the reference policy over the case's capacities (proved as
-   C17_monotone for schedules without staging pins, not lifted) *)
+(* C17_monotone lifted to cases: without staging-area accesses the oracle's policy charges every
+   binding at most as many fills at a larger capacity *)
+Theorem C17_monotone_cases : forall c cap1 cap2, c17_wf c = true -> has_staging c = false ->
+  0 <= cap1 -> cap1 <= cap2 -> Forall2 Z.le (spec_min c cap2) (spec_min c cap1).
+Proof. exact spec_min_mono. Qed.
+Print Assumptions C17_monotone_cases.
+
+(* C17_model_meets_spec, unconditional: for every well-formed case outside the two known-finding
+   regions (1: equal next-use stamps of two lines of one binding; 2: staging pins with two or more
+   cache capacities) the faithful model satisfies the whole oracle — filter, combine, buffet
+   fills and write-backs, cache fills = min_run with its bounds and its monotonicity over the
+   case's capacities, no failure, no temporary file *)
 Theorem C17_model_meets_spec : forall c, c17_wf c = true -> c17_region c = 0 ->
-  non_increasing (map total_reads (map (model_cache c) (k_caps c))) = true ->
   holds c17_checker c (model c17_checker c) = true.
-Proof. exact model_meets_region0_mono. Qed.
+Proof. exact model_meets_spec. Qed.
 Print Assumptions C17_model_meets_spec.
 
 (* ... and in any region, given the whole cache clause *)
@@ -298,7 +315,7 @@ Example C17_nonvacuous :
                              k_write := Some [([0;1],[0;2],1); ([1;1],[1;1],5)] |};
                           {| k_t := 0; k_r := 0; k_type := 0; k_foot := 32; k_evict := None;
                              k_read := Some [([0],[0],0); ([1],[1],1)]; k_write := None |}];
-              k_line := 32; k_bcap := 64; k_caps := [0; 32; 96];
+              k_line := 32; k_bcap := 64; k_caps := [32];
               k_fin := Some ([([1],[1],0); ([3],[3],1)], [([1;0],[1;0],0); ([1;2],[1;2],1); ([2;0],[2;0],0)]) |} in
   c17_wf c = true /\ c17_region c = 0 /\ c17_holds c (c17_model c) = true
   /\ vnth 2 (c17_model c) = VL [VL [VL [VL [VZ 128]; VL [VZ 32]]]; VZ 0; VZ 0].
